@@ -15,7 +15,8 @@
    for it, resolves to the default certificate. *)
 From Coq Require Import List Bool String ZArith.
 From HI Require Import Model.Tracker Model.Conv Model.CrtList Proofs.ConvHist Proofs.CrtList
-                       Proofs.CrtList_e2e Proofs.CrtList_gen.
+                       Proofs.CrtList_e2e Proofs.CrtList_gen Model.CrtList_xns Proofs.CrtList_xns.
+From HI Require Model.XNs.
 Import ListNotations.
 Open Scope string_scope.
 
@@ -267,3 +268,44 @@ Theorem C15_hosts_refines : forall w,
     served_gen default_crt (map (hcfg_of (fst (sync_full w))) (host_names w)) n = served w n.
 Proof. exact gen_refines_full. Qed.
 Print Assumptions C15_hosts_refines.
+
+(* ================================================================== *)
+(* The cross-namespace permission (definitions of Model/XNs.v, C09)    *)
+(* ================================================================== *)
+(* d : XNs.dyn is the dynamic configuration (d_crt = --allow-cross-namespace or
+   cross-namespace-secrets-crt=allow; d_ca is the bit of auth-tls CA bundles and is NOT read
+   here).  xresolve d ns s = the secret ns'/name the secretName s written in an ingress of
+   namespace ns names (XNs.content_protocol + XNs.build_resource_name with d_crt), None when
+   it is malformed or not readable from ns.  cert_x d w ns s = the content of that secret
+   if readable, present and valid, else DEFAULT.  xworld d w = the cluster as the converter
+   model reads it under d.  ns_ok w = no ingress namespace contains "/". *)
+Theorem C15_sni_serves_declared_x : forall d w i pre blk post h,
+  ns_ok w -> NoDup (map i_full (w_ings w)) ->
+  In i (w_ings w) -> i_tls i = (pre ++ blk :: post)%list -> In h (fst blk) ->
+  (forall b, In b pre -> ~ In h (fst b)) ->
+  (forall j, In j (w_ings w) -> j <> i -> (exists b, In b (i_tls j) /\ In h (fst b)) -> ing_ltb i j = true) ->
+  name_ok h ->
+  sni_select (crt_list (host_names w) (fst (sync_full (xworld d w)))) h = cert_x d w (i_ns i) (snd blk).
+Proof. exact sni_serves_declared_x. Qed.
+Print Assumptions C15_sni_serves_declared_x.
+
+(* end to end with the permission: every SNI is served the default certificate or the
+   secret the deciding tls entry names, if readable from the namespace of its ingress *)
+Theorem C15_end_to_end_x : forall d w, ns_ok w ->
+  (forall h, In h (host_names w) <-> get_host (fst (sync_full (xworld d w))) h <> None) /\
+  (forall n, name_ok n ->
+     let served_n := sni_select (crt_list (host_names w) (fst (sync_full (xworld d w)))) n in
+     (effective_ref w n = None /\ served_n = default_crt) \/
+     exists i blk dn, In i (w_ings w) /\ In blk (i_tls i) /\ In dn (fst blk) /\
+                      (dn = n \/ wild_of n = Some dn) /\
+                      effective_ref w n = Some (secret_ref i (snd blk)) /\
+                      served_n = cert_x d w (i_ns i) (snd blk)).
+Proof. exact end_to_end_x. Qed.
+Print Assumptions C15_end_to_end_x.
+
+(* the crt bit decides, the ca bit does not: a/inga names b/tls-b (plain and secret://) *)
+Theorem C15_permission_example :
+  map (served_x (q_dyn false true) q_world) ["a.example"; "s.example"; "l.example"] = [default_crt; default_crt; "HASH-A"] /\
+  map (served_x (q_dyn true false) q_world) ["a.example"; "s.example"; "l.example"] = ["HASH-B"; "HASH-B"; "HASH-A"].
+Proof. exact permission_example. Qed.
+Print Assumptions C15_permission_example.
